@@ -794,6 +794,18 @@ func (in *Interp) eval(st *State, e ast.Expr) Val {
 				return in.readPath(st, b.Path+"[*]", t)
 			}
 		}
+		// map element: symbolic by the map's name
+		if mt, ok := in.info.TypeOf(x.X).Underlying().(*types.Map); ok {
+			name := in.operand(st, x.X)
+			if uv, ok := bv.(UnkV); ok && uv.Text != "" {
+				name = uv.Text
+			}
+			if ov, ok := bv.(ObjV); ok {
+				name = ov.Path
+			}
+			in.eval(st, x.Index)
+			return in.symbolic(st, name+"[*]", mt.Elem())
+		}
 		return UnkV{in.render(st, e)}
 	case *ast.SliceExpr:
 		return in.sliceExpr(st, x)
